@@ -39,7 +39,10 @@ class RowAttributionBroken(Exception):
 
 def install_contract(ctx):
     """icontract postcondition on the real em_update_matrix (PY mode only: kernels are plain functions there)."""
-    import icontract
+    try:
+        import icontract
+    except ImportError:
+        icontract = None
     import vectorizers.coo_utils as cu
     import vectorizers.token_cooccurrence_vectorizer as m1
     import vectorizers.timed_token_cooccurrence_vectorizer as m2
@@ -63,8 +66,22 @@ def install_contract(ctx):
             state["violations"].append(("mass-not-0-or-1", {"row": int(target_gram_ind), "added": tot}))
         return True
 
-    wrapped = icontract.snapshot(snap_posterior, name="before")(
-        icontract.ensure(confined_to_row_and_unit_mass, error=RowAttributionBroken)(cu.em_update_matrix))
+    if icontract is not None:
+        wrapped = icontract.snapshot(snap_posterior, name="before")(
+            icontract.ensure(confined_to_row_and_unit_mass, error=RowAttributionBroken)(cu.em_update_matrix))
+    else:  # same postcondition as a plain wrapper
+        orig = cu.em_update_matrix
+
+        class _Old:
+            pass
+
+        def wrapped(posterior_data, prior_indices, prior_indptr, prior_data, n_unique_tokens, target_gram_ind, windows, kernels):
+            old = _Old()
+            old.before = snap_posterior(posterior_data)
+            result = orig(posterior_data, prior_indices, prior_indptr, prior_data, n_unique_tokens, target_gram_ind, windows, kernels)
+            confined_to_row_and_unit_mass(posterior_data, prior_indptr, target_gram_ind, result, old)
+            return result
+        ctx.note("icontract not importable: em_update_matrix postcondition installed as a plain wrapper")
     for m in (m1, m2, m3, m4):
         m.em_update_matrix = wrapped
     return state
